@@ -29,6 +29,7 @@ RULE = (
     "(0.02,0.9) or fspread in (0.05,3), optional cell, 6 queries (non-descriptors; 1 case in 4: one of them within a relative 5e-7 of a descriptor). non-trivial = model produced and >= 1 "
     "relation judged; distinct by data hash."
 )
+RULE = RULE + " " + 'One case in 5: the whole configuration in another length unit (x 2^-200, 2^-66, 2^40, 2^150).'
 ASSUMPTIONS = [
     "proviso of the property (localisation reaches another grid point): a bandwidth is judged only when the second largest captured localised weight is >= 1e-6 of the largest; models with a grid point outside the proviso are not used for relations",
     "the mixture oracle uses the public bandwidth_ and the captured assignment after that assignment has been checked against brute force",
